@@ -6,6 +6,7 @@ import (
 	"go/token"
 	"go/types"
 	"sort"
+	"strings"
 
 	"golang.org/x/tools/go/ssa"
 )
@@ -571,4 +572,107 @@ func parsePositionRule(c *Ctx, r *Result, rule string) {
 func init() {
 	registry["C10"].Meta.Rules["C10.10"] = "a position recorded while parsing is not a write address: a field whose only non-constant stores take the cursor of a parsing loop (not a value decoded from the file) and that nothing on the writing side maintains is stale as soon as the structure is changed through a cached copy; no WriteAt/WriteAtAddress address is computed from such a field (an in-place patch at HeaderMessage.Offset writes where the message used to be - or at address 4 for a message added in memory)"
 	registry["C10"].Rules = append(registry["C10"].Rules, func(c *Ctx, r *Result) { parsePositionRule(c, r, "C10.10") })
+}
+
+// ---- a handle does not write through a slice it was given (C04.10) ----
+//
+// A slice field that is assigned a parameter as it came (no copy) shares its backing array with whoever made the call - and
+// with every other object that was set up from the same slice variable (two datasets created from one `dims`). Reading through
+// such a field is fine; an element store or a copy into it changes the caller's variable and the sibling objects.
+func borrowedSliceFields(c *Ctx, pkg string) map[string]string {
+	out := map[string]string{}
+	for _, fn := range c.LibFuncs() {
+		if shortPkg(fnPkgPath(fn)) != pkg {
+			continue
+		}
+		for _, fs := range c.DirectFieldStores(fn) {
+			if fs.Fn != fn || fs.Val == nil || fs.Kind != "set" {
+				continue
+			}
+			if _, isSl := fs.Val.Type().Underlying().(*types.Slice); !isSl {
+				continue
+			}
+			v := fs.Val
+			for {
+				switch x := v.(type) {
+				case *ssa.Slice:
+					v = x.X
+					continue
+				case *ssa.ChangeType:
+					v = x.X
+					continue
+				}
+				break
+			}
+			if p, isP := v.(*ssa.Parameter); isP && exportedEntry(fn) {
+				if _, seen := out[fs.Key]; !seen {
+					out[fs.Key] = c.Name(fn) + " keeps parameter " + p.Name() + " at " + c.InstrPos(fs.In)
+				}
+			}
+		}
+	}
+	return out
+}
+
+func borrowedWriteRule(c *Ctx, r *Result, rule, pkg string, floor int) {
+	fields := borrowedSliceFields(c, pkg)
+	writes := map[string][]string{}
+	for _, fn := range c.LibFuncs() {
+		if shortPkg(fnPkgPath(fn)) != pkg {
+			continue
+		}
+		for _, fs := range c.DirectFieldStores(fn) {
+			if fs.Fn == fn && fs.Kind == "elem" {
+				if _, ok := fields[fs.Key]; ok {
+					writes[fs.Key] = append(writes[fs.Key], c.Name(fn)+" stores an element at "+c.InstrPos(fs.In))
+				}
+			}
+		}
+		for _, site := range callsIn(fn) {
+			b, isB := site.Common().Value.(*ssa.Builtin)
+			if !isB || b.Name() != "copy" {
+				continue
+			}
+			if k, _ := fieldLoadKey(stripSlices(site.Common().Args[0])); k != "" {
+				if _, ok := fields[k]; ok {
+					writes[k] = append(writes[k], c.Name(fn)+" copies into it at "+c.InstrPos(site.(ssa.Instruction)))
+				}
+			}
+		}
+	}
+	for _, k := range sortedKeys(fields) {
+		cons := k + "#kept-parameter-is-only-read"
+		if w := writes[k]; len(w) > 0 {
+			sort.Strings(w)
+			r.Viol(rule, cons, strings.TrimPrefix(w[0][strings.LastIndex(w[0], " at ")+4:], ""), fields[k]+"; "+strings.Join(w, "; ")+": the store changes the caller's slice and every other object set up from it (a second dataset created from the same dims variable gets the first one's new shape)")
+		} else {
+			r.Hold(rule, cons, "", fields[k]+"; no element store and no copy goes through the field")
+		}
+	}
+	if len(fields) < floor {
+		r.Shortfall(c, rule, fmt.Sprintf("%s: only %d slice fields that keep a parameter found in package %s", rule, len(fields), pkg))
+	}
+}
+
+func init() {
+	registry["C04"].Meta.Rules["C04.10"] = "a handle does not write through a slice it was given: a slice field of the root package that is assigned a parameter without a copy shares its backing array with the caller and with sibling objects created from the same variable; no element store and no copy() goes into such a field"
+	registry["C04"].Rules = append(registry["C04"].Rules, func(c *Ctx, r *Result) { borrowedWriteRule(c, r, "C04.10", "hdf5", 3) })
+}
+
+// exportedEntry: fn can be called from outside the module (exported function, or exported method of an exported type).
+func exportedEntry(fn *ssa.Function) bool {
+	obj, ok := fn.Object().(*types.Func)
+	if !ok || !obj.Exported() {
+		return false
+	}
+	if recv := obj.Type().(*types.Signature).Recv(); recv != nil {
+		t := recv.Type()
+		if p, isP := t.(*types.Pointer); isP {
+			t = p.Elem()
+		}
+		if n, isN := t.(*types.Named); isN && !n.Obj().Exported() {
+			return false
+		}
+	}
+	return true
 }
